@@ -72,6 +72,17 @@ func c09S1Worker(env *fw.Env) {
 				c09ParkedAsync(env, c09AsyncCase{Index: i, Active: (i+int64(rep))%2 == 0, End: end, RecvPark: recvPark})
 			}
 		}
+		// SECS-I: a partial multi-block message does not survive its TCP generation (c09_s1partial.go)
+		for _, kind := range []string{"primary", "reply"} {
+			for _, equip := range []bool{false, true} {
+				i := k
+				k++
+				if !env.Mine(i) || !env.Want(i) {
+					continue
+				}
+				c09S1Partial(env, c09S1PartialCase{Index: i, Kind: kind, Equip: equip})
+			}
+		}
 		for _, h := range []string{"blocks", "sends-inline"} {
 			for _, end := range []string{"close"} {
 				for _, role := range []string{"active", "passive"} {
